@@ -888,6 +888,83 @@ fn shapes() -> Vec<OpticApertureShape> {
     ]
 }
 
+/// Checkpoint dimension of coordinate binding.  BFS states carry no replay checkpoints (a
+/// checkpoint is retention configuration, not history), so here every state is probed on CLONES of
+/// its provenance that hold one checkpoint at each interior coordinate `c`; optic reads at every
+/// explicit coordinate `t > c` (Tick and Provenance form, Head / SnapshotMetadata / TruthChannels,
+/// generous and tight tick budgets) are (1) repeated — equal, (2) read-only, and (3) recorded for
+/// coordinate binding under (history prefix of t, checkpoint coordinate, request): the same reading
+/// or the same obstruction must come back in every descendant state, whatever was committed later.
+fn optic_checkpoint_probe(out: &mut Out, path: &str, rt: &Rt, engine: &Engine, infos: &BTreeMap<WorldlineId, WlInfo>) {
+    for (w, info) in infos {
+        if info.len < 2 {
+            continue;
+        }
+        for c in 1..info.len {
+            let mut pc = rt.provenance.clone();
+            let st = &info.replayed[c as usize];
+            let added = pc.add_checkpoint(
+                *w,
+                warp_core::ReplayCheckpoint {
+                    checkpoint: warp_core::CheckpointRef { worldline_tick: wt(c), state_hash: st.state_root() },
+                    state: st.clone(),
+                },
+            );
+            if added.is_err() {
+                out.machinery.push(format!("checkpoint probe: add_checkpoint at {c} refused: {:?}", added.err()));
+                continue;
+            }
+            let fp0 = mc::fp_debug(&(&rt.runtime, &pc));
+            // explicit coordinates name an ENTRY index t (as in the main menu: Tick(t) binds to prefix_fp[t]);
+            // the checkpoint at cursor coordinate c holds the state after entries 0..c-1, so it lies at or
+            // below every t >= c
+            for t in c..info.len {
+                let ats = vec![
+                    CoordinateAt::Tick(wt(t)),
+                    CoordinateAt::Provenance(ProvenanceRef { worldline_id: *w, worldline_tick: wt(t), commit_hash: info.entries[t as usize].2 }),
+                ];
+                for at in ats {
+                    for sh in [OpticApertureShape::Head, OpticApertureShape::SnapshotMetadata, OpticApertureShape::TruthChannels { channels: None }] {
+                        for mt in [Some(1u64), Some(64)] {
+                            let req = optic_req(
+                                OpticFocus::Worldline { worldline_id: *w },
+                                EchoCoordinate::Worldline { worldline_id: *w, at: at.clone() },
+                                sh.clone(),
+                                Some(4096),
+                                mt,
+                                AttachmentDescentPolicy::BoundaryOnly,
+                                Some(0),
+                            );
+                            let r1 = ObservationService::observe_optic(&rt.runtime, &pc, engine, req.clone());
+                            let r2 = ObservationService::observe_optic(&rt.runtime, &pc, engine, req.clone());
+                            out.reads += 2;
+                            if format!("{r1:?}") != format!("{r2:?}") {
+                                out.v("c16:determinism:observe_optic twice differs (with a replay checkpoint below the coordinate)".into(), path, json!({"request": format!("{req:?}"), "checkpoint": c}));
+                            }
+                            let fp = match &r1 {
+                                ObserveOpticResult::Reading(rd) => {
+                                    out.c("checkpoint_probe_readings", 1);
+                                    fp_dbg(&**rd)
+                                }
+                                ObserveOpticResult::Obstructed(ob) => {
+                                    out.c("checkpoint_probe_obstructions", 1);
+                                    fp_dbg(&(kind_name(ob.kind), format!("{ob:?}")))
+                                }
+                            };
+                            let prefix = &info.prefix_fp[t as usize];
+                            out.bound.push((cache_key(prefix, &format!("optic-with-checkpoint@{c}"), &format!("{req:?}")), fp, format!("{path} :: checkpoint@{c} :: {req:?}")));
+                            out.c("optic_checkpoint_reads_recorded_for_binding", 1);
+                        }
+                    }
+                }
+            }
+            if mc::fp_debug(&(&rt.runtime, &pc)) != fp0 {
+                out.v("c16:read-only:runtime/provenance fingerprint changed by observe_optic (checkpoint probe)".into(), path, json!({"checkpoint": c}));
+            }
+        }
+    }
+}
+
 fn kind_name(k: OpticObstructionKind) -> String {
     format!("{k:?}")
 }
@@ -1138,6 +1215,7 @@ fn visit(rt: &Rt, path: &[Op], with_optic: bool) -> Out {
     observe_menu(&mut out, &ps, rt, &engine, &infos);
     if with_optic {
         optic_menu(&mut out, &ps, rt, &engine, &infos);
+        optic_checkpoint_probe(&mut out, &ps, rt, &engine, &infos);
     }
     out
 }
@@ -1317,7 +1395,7 @@ fn main() {
     );
     r.assume("recorded outputs are synthetic (hist::decorate re-records the runtime's real entries with outputs that are a function of commit_global_tick) because executors cannot emit in this tree");
     r.assume("resolved.observed_after_global_tick is a freshness watermark (function of the live global tick by contract) and the live parent-basis posture of a strand FRONTIER read is a function of current parent history (INV-S10): both are excluded from cross-state comparisons, and only those");
-    r.assume("no replay checkpoints are stored in C16 states (optic witness basis CheckpointPlusTail names checkpoint configuration, not history)");
+    r.assume("BFS states themselves store no replay checkpoints (a checkpoint is retention configuration, not history); the checkpoint dimension is probed in every state on provenance clones holding one checkpoint at each interior coordinate, and bound under (history prefix, checkpoint coordinate, request)");
     r.assume("engine state is fingerprinted through its public accessors (Engine is not Debug)");
     r.assume("read-only granularity: the full Debug fingerprint of runtime+provenance and the engine fingerprint are compared before/after every request group (all requests for one worldline; the whole optic menu); after EVERY single read a cheap probe (global tick, the runtime's interior-mutable scan counter, every frontier tick and provenance length) is compared");
 
@@ -1390,5 +1468,6 @@ fn main() {
     r.guard("strand_states_visited", r.counter_value("states_with_strand_worldline") > 0);
     r.guard("bounded_readings_within_budget_seen", r.counter_value("bounded_readings_within_budget") > 0);
     r.guard("nonempty_truth_channels_read", g.payloads.get("TruthChannels").map_or(0, |s| s.len()) >= 3);
+    r.guard("optic_reads_above_a_checkpoint_bound", r.counter_value("checkpoint_probe_readings") > 0 && r.counter_value("optic_checkpoint_reads_recorded_for_binding") > 0);
     r.finish();
 }
